@@ -50,6 +50,17 @@ CLAIMED = {
         'technique': 'contract-based deductive verification (Verus) of extracted real code + Kani harness for the id counter',
         'design_ref': 'DESIGN.md 5/C10',
     },
+    'C12': {
+        'text': 'BOUNDED stand-in, not a proof. evaluate_add / subtract / multiply / divide are run on the real crate against the documented left-to-right fold (i64 with truncating division when all arguments are integers, '
+                'f64 with integers converted when any is a float; results compared bit for bit): all 1- and 2-argument lists over a pool of 20 extreme values, seeded lists of 3-4 arguments given literally, through bound variables and through variable chains, '
+                'and 2-operand infix forms through the parser. Contract-based verification could not reach these functions: Verus leaves exec float arithmetic unspecified and rejects the iterator closures; '
+                'the Kani harnesses written for them (one per type shape, kani/src/arith.rs) exhaust memory in CBMC.',
+        'note': 'Bounded: about 4300 distinct cases per run (seeded by VERIF_SEED); integer overflow and integer division by zero are skipped as outside the claim. The unification of the value with the other operand is proved under C13.',
+        'technique': 'bounded enumeration on the real code (stand-in where neither installed verifier reaches)',
+        'category': 'exploration',
+        'engine': 'replay',
+        'design_ref': 'DESIGN.md 5/C12 and 8',
+    },
     'C13': {
         'text': 'Deductive proof (Verus): unify carries the postcondition post_function - when one operand is a built-in function term the result satisfies the whole clause set (upost) of unifying '
                 "the function's value with the other operand, on either side and for function/function pairs; unify_sfunction is proved against the same clause set in unit functions.",
